@@ -438,6 +438,9 @@ class FnTotality:
                 s.why = "range bounds unknown (%s..%s)" % (a, c)
             elif a[1] > c[0] and not self._range_ordered(ev, args[1]):
                 s.why = "cannot show start <= end (%s..%s)" % (a, c)
+            elif self._range_end_stepped(ev, args):
+                s.status = "discharged"
+                s.why = "range end is a counter just advanced by min(len - counter, ..): end <= len structurally"
             else:
                 self.need_min(s, base, c[1], "range end")
         elif kind == "from":
@@ -567,7 +570,119 @@ class FnTotality:
         if ro is None:
             return False
         k = ev.offset_between(ro[1], ro[2])
-        return k is not None and k >= 0
+        if k is not None and k >= 0:
+            return True
+        return self._range_back_step(ro[1], ro[2])
+
+    def _reaching_def(self, local, bi, before):
+        """The one definition of `local` that reaches statement index `before` of block bi, walking back through
+        single-predecessor blocks only; None when a join is met first."""
+        b = self.body
+        for _ in range(12):
+            best = None
+            for si, st in enumerate(b.blocks[bi]["s"]):
+                if si >= before:
+                    break
+                if st[0] == "A" and st[1] == [local]:
+                    best = (bi, si, st)
+            if best is not None:
+                return best
+            preds = [p for p in b.pred[bi] if p in b.reachset]
+            if len(preds) != 1:
+                return None
+            t = b.blocks[preds[0]]["t"]
+            if t[0] == "call" and t[3] == [local]:
+                return None
+            bi = preds[0]
+            before = 1 << 30
+        return None
+
+    def _range_end_stepped(self, ev, args):
+        """`j += c; .. &src[(j - c)..j]` with c = min(len(src) - j, ..): the end operand is a counter whose reaching definition
+        is j_old + c; that sum is bounded by the length exactly as in `&src[j..j + c]`."""
+        b = self.body
+        ro = ev.range_operands(args[1])
+        if ro is None:
+            return False
+        e = operand_local(ro[2])
+        for _ in range(4):
+            d = b.single_def(e) if e is not None else None
+            if d and d[2] == "A" and d[3][2][0] == "use" and d[3][2][1][0] in ("cp", "mv") and len(d[3][2][1][1]) == 1:
+                last = d
+                e = d[3][2][1][1][0]
+            else:
+                break
+        else:
+            return False
+        if e is None or len(b.defs().get(e, [])) < 2:
+            return False
+        # where is the counter read for the range?  the temporary that copies it
+        rd_at = None
+        l0 = operand_local(ro[2])
+        d0 = b.single_def(l0) if l0 is not None else None
+        if d0 and d0[2] == "A" and isinstance(d0[1], int):
+            rd_at = (d0[0], d0[1])
+        if rd_at is None:
+            return False
+        rd = self._reaching_def(e, rd_at[0], rd_at[1])
+        if rd is None:
+            return False
+        rv = rd[2][2]
+        src_bi = rd[0]
+        if rv[0] == "use" and rv[1][0] in ("cp", "mv") and len(rv[1][1]) == 2:
+            dd = b.single_def(rv[1][1][0])
+            if not (dd and dd[2] == "A"):
+                return False
+            rv = dd[3][2]
+            src_bi = dd[0]
+        if not (rv[0] == "bin" and rv[1] in ("Add", "AddWithOverflow", "AddUnchecked")):
+            return False
+        reads = []
+        key = ("Add", ev._opk(rv[2], reads, 0, src_bi), ev._opk(rv[3], reads, 0, src_bi))
+        own = (e, rd[0], rd[1]) if src_bi == rd[0] else None
+        return ev.provably_le_len_key(key, reads, ev.len_key(args[0], []), own)
+
+    def _range_back_step(self, start, end):
+        """`j += c; .. &src[(j - c)..j]`: start = j - c and end = j where the reaching definition of j is j_old + c with the
+        same c (not redefined since): then start = j_old <= end, and the subtraction cannot wrap."""
+        b = self.body
+        ls, le = operand_local(start), operand_local(end)
+        if ls is None or le is None:
+            return False
+        ds = b.single_def(ls)
+        # start = Sub(j, c), possibly through the overflow-checked pair
+        for _ in range(3):
+            if ds and ds[2] == "A" and ds[3][2][0] == "use" and ds[3][2][1][0] in ("cp", "mv"):
+                ds = b.single_def(ds[3][2][1][1][0])
+            else:
+                break
+        if not (ds and ds[2] == "A" and ds[3][2][0] == "bin" and ds[3][2][1] in ("Sub", "SubWithOverflow", "SubUnchecked")):
+            return False
+        j, c = operand_local(ds[3][2][2]), operand_local(ds[3][2][3])
+
+        def root(l):
+            for _ in range(4):
+                d = b.single_def(l) if l is not None else None
+                if d and d[2] == "A" and d[3][2][0] == "use" and d[3][2][1][0] in ("cp", "mv") and len(d[3][2][1][1]) == 1:
+                    l = d[3][2][1][1][0]
+                else:
+                    break
+            return l
+        j, c, le = root(j), root(c), root(le)
+        if j is None or c is None or j != le or len(b.defs().get(c, [])) != 1:
+            return False
+        rd = self._reaching_def(j, ds[0], ds[1] if isinstance(ds[1], int) else 0)
+        if rd is None:
+            return False
+        rv = rd[2][2]
+        # j = (AddWithOverflow(j, c)).0  or  j = Add(j, c)
+        if rv[0] == "use" and rv[1][0] in ("cp", "mv") and len(rv[1][1]) == 2:
+            dd = b.single_def(rv[1][1][0])
+            rv = dd[3][2] if dd and dd[2] == "A" else rv
+        if rv[0] == "bin" and rv[1] in ("Add", "AddWithOverflow", "AddUnchecked"):
+            a0, a1 = root(operand_local(rv[2])), root(operand_local(rv[3]))
+            return (a0 == j and a1 == c) or (a1 == j and a0 == c)
+        return False
 
     def unwrap_call(self, bi, t, dwo):
         args = t[2]
